@@ -55,6 +55,7 @@ def dispatch (line : String) : String :=
     | "relabel" => Driver.relabelCmd args
     | "dot" => Driver.dotCmd args
     | "genk" => Driver.genkCmd args
+    | "genprog" => Driver.genprogCmd args
     | _ => "bad-op " ++ cmd
 
 partial def loop (h : IO.FS.Stream) (out : IO.FS.Stream) : IO Unit := do
